@@ -70,9 +70,10 @@ def is_data(v):
 CLASS_ATTRS = ("field_modulus", "degree", "FQ2_MODULUS_COEFFS", "FQ12_MODULUS_COEFFS", "mc_tuples", "DST", "POP_TAG", "xmd_hash_function")
 
 
-def registry(modules):
+def registry(modules, raw=False):
     """{(module, name): canonical value} of every data constant and of the data attributes of every
-    class defined in the given py_ecc modules."""
+    class defined in the given py_ecc modules (raw=True: the values themselves)."""
+    conv = (lambda v: v) if raw else canon
     out = {}
     for m in modules:
         mname = m.__name__
@@ -82,10 +83,10 @@ def registry(modules):
             if isinstance(v, type) and getattr(v, "__module__", "").startswith("py_ecc"):
                 for a in CLASS_ATTRS:
                     if a in vars(v):
-                        out[(v.__module__, v.__qualname__ + "." + a)] = canon(vars(v)[a])
+                        out[(v.__module__, v.__qualname__ + "." + a)] = conv(vars(v)[a])
                 continue
             if is_data(v):
-                out[(mname, k)] = canon(v)
+                out[(mname, k)] = conv(v)
     return out
 
 
